@@ -689,8 +689,11 @@ def _oracle_canon(case):
         a0 = case["orig"].split(">>")[0]
         dist = G9.all_distinguishable(a0)
         only_iter = bool(opts) and set(opts) == {"wl_iterations"}
-        if dist and ((not opts and be == "nauty") or (be == "wl" and (not opts or only_iter)
-                                                       and G9.wl_colours_distinct(a0, iterations=(opts or {}).get("wl_iterations", 3)))):
+        # the property demands the clause whenever all reactant atoms are distinguishable (no non-trivial automorphism) - for BOTH back-ends.
+        # For wl that is more than WL can deliver: atoms that are distinguishable but share their WL colour are ordered by (degree, id), i.e.
+        # by the input numbering (known finding wl-tied-colours-distinguishable, theorem C09_numbering_independent_wl_refuted)
+        wl_tied = be == "wl" and not G9.wl_colours_distinct(a0, iterations=(opts or {}).get("wl_iterations", 3))
+        if dist and ((not opts and be == "nauty") or (be == "wl" and (not opts or only_iter))):
             try:
                 c0 = _canon(case["orig"], be, opts)
                 out0 = c0.canonical_rsmi
@@ -704,9 +707,11 @@ def _oracle_canon(case):
             if out0 != out:
                 I0 = G9.ref_its(case["orig"])
                 lone = 0 if I0 is None else sum(1 for _, d in I0.nodes(data=True) if d["lab"][0] is None) + I0.graph["unmapped"][1]
-                # known finding: two or more product atoms without reactant partner are numbered in the order of their input numbers
-                fails.append(_fail("canon-numbering-independent", "canon(%r) = %r but canon(%r) = %r (all reactant atoms distinguishable)"
-                                   % (r, out, case["orig"], out0), key="partnerless-product-atoms-order" if lone >= 2 else None))
+                # known findings: two or more product atoms without reactant partner are numbered in the order of their input numbers;
+                # wl cannot separate distinguishable atoms that share their WL colour
+                key = "partnerless-product-atoms-order" if lone >= 2 else ("wl-tied-colours-distinguishable" if wl_tied else None)
+                fails.append(_fail("canon-numbering-independent", "canon(%r) = %r but canon(%r) = %r (all reactant atoms distinguishable%s)"
+                                   % (r, out, case["orig"], out0, "; WL colours tied" if wl_tied else ""), key=key))
     return fails
 
 
@@ -967,6 +972,31 @@ def _oracle_validate(case):
     return fails[:3]
 
 
+def _oracle_normcore(case):
+    """monitor of theorem C09_normalize_keeps_balance on the real code: when the graphs NormalizeAAM.fit works on satisfy the premises
+    (every hydrogen has at most one non-hydrogen neighbour; hydrogens bonded to a heavy atom are neutral and carry no hydrogens of
+    their own), the two implicit_hydrogen results have the same element counts (with hydrogens) and total charge as the inputs"""
+    try:
+        _, rec = ST.normalize_capture(case["rsmi"], case.get("fix", True))
+    except Exception:
+        return []
+    gh = rec["graphs"]
+    if gh is None or gh[0] is None or gh[1] is None or len(rec["ih"]) != 2:
+        return []
+    fails = []
+    for side, g, (_, out) in zip("GH", gh, rec["ih"]):
+        ok = True
+        for n, d in g.nodes(data=True):
+            if d.get("element") == "H":
+                heavy = [m for m in g.neighbors(n) if g.nodes[m].get("element") != "H"]
+                if len(heavy) > 1 or d.get("hcount", 0) != 0 or (heavy and d.get("charge", 0) != 0):
+                    ok = False
+        if ok and _counts(g) != _counts(out):
+            fails.append(_fail("normalize-balance", "side %s of %r: counts / charge %r before, %r after implicit_hydrogen inside NormalizeAAM.fit"
+                               % (side, case["rsmi"], _counts(g), _counts(out))))
+    return fails
+
+
 def oracle(case):
     worker_init()
     k = case["kind"]
@@ -978,8 +1008,10 @@ def oracle(case):
         return _oracle_balstr(case)
     if k == "validate":
         return _oracle_validate(case)
-    if k in ("fixaam", "normcore"):
+    if k == "fixaam":
         return _oracle_norm(case)
+    if k == "normcore":
+        return (_oracle_norm(case) + _oracle_normcore(case))[:3]
     if k.startswith("hist-"):
         return _oracle_hist(case)
     if k.startswith("canon-"):
@@ -1602,7 +1634,10 @@ TESTED_NOT_PROVED = [
     "the RDKit contracts named as premises (canonical writer is a function of the graph, parse-write round trip, canonical SMILES of one fragment "
     "is a fixed point, remove_atom_mapping's canonical side string does not depend on atom order / fragment order / numbers): oracle on every run",
     "CalcMolFormula string equality <=> equal element counts and charge (RDKit oracle; the graph-level formula is proved, the verdicts are compared on every run)",
-    "rsmi_to_graph / graph_to_smi (RDKit front and back end of the canonicaliser): same unmapped sides checked by the oracle on every run",
+    "rsmi_to_graph / graph_to_smi (RDKit front and back end of the canonicaliser): 'same unmapped reactants and products' of the returned STRING "
+    "is checked by the oracle on every run (graph level: proved, the canonical graphs are relabelled copies)",
+    "fixed point of the canonicaliser on reactant graphs WITH non-trivial automorphisms (nauty) / with tied WL colours (wl): the text demands it "
+    "unconditionally, the theorems cover rigid graphs / distinct colours; oracle clause canon-fixed-point on every canonicaliser case",
     "WL colours are an input of the model (any ranking); nauty model evaluated only for reactant graphs of <= %d atoms, ITS matcher for <= %d atoms "
     "(larger cases: oracle + reaction-centre matcher only)" % (NAUTY_MAX_ATOMS, ITS_MAX_ATOMS),
     "validate_smiles: success_rate and the float accuracy (derived by the harness from the modelled exact count); RDKit's tautomer enumeration "
@@ -1616,11 +1651,14 @@ LEVEL_TEXT = ("Machine-checked proof (Coq) over executable models of CanonRSMI.c
               "and product graphs are the input graphs renamed by one injective map (canonical position on reactant atoms, fresh numbers after "
               "them on product atoms without partner), mapping_pairs are exactly the shared atoms, the ITS of the canonical reaction is "
               "isomorphic to the ITS of the input; expand_aam keeps mapped numbers and gives unmapped atoms fresh, pairwise different numbers (no "
-              "unmapped atom gets a partner). Numbering / atom-order / bond-order independence and fixed point for wl (corresponding, pairwise "
-              "distinct colours) and nauty (reactant graph without non-trivial automorphism; from the C08 theorems about the search), for EVERY "
-              "parsed presentation of the reaction (any renaming that keeps the relative order of partner-less product atoms, any atom order, bond "
-              "order, bond orientation) at graph level, and for the canonical_rsmi STRING relative to two explicit RDKit contracts (writer is a "
-              "function of the graph; the canonical string is read back as the written graphs). The validator's matcher answers true exactly when "
+              "unmapped atom gets a partner). Numbering / atom-order / bond-order independence and fixed point: for nauty on reactant graphs without "
+              "non-trivial automorphism (the text's hypothesis 'all atoms distinguishable'; from the C08 theorems about the search), for wl only under "
+              "the STRONGER hypothesis of corresponding, pairwise distinct WL colours - under the text's hypothesis wl is REFUTED "
+              "(C09_numbering_independent_wl_refuted, known finding wl-tied-colours-distinguishable); for EVERY parsed presentation of the reaction "
+              "(any renaming that keeps the relative order of partner-less product atoms, any atom order, bond order, bond orientation) at graph "
+              "level, and for the canonical_rsmi STRING relative to two explicit RDKit contracts (writer is a function of the graph; the canonical "
+              "string is read back as the written graphs). The fixed-point clause, which the text states without condition, is proved for those "
+              "two cases only; on symmetric reactants / tied colours it is checked by the oracle on every run. The validator's matcher answers true exactly when "
               "the two ITS graphs / reaction centres are isomorphic on typesGH and bond-order pairs (both values of ignore_aromaticity), hence "
               "accepts every renumbering and rejects every non-equivalent swap; check_equivariant_graph returns exactly the index pairs of "
               "isomorphic graphs. Balance: true exactly when all element counts (with hydrogens) and the total charge agree; dicts_balance_check "
@@ -1630,6 +1668,7 @@ LEVEL_TEXT = ("Machine-checked proof (Coq) over executable models of CanonRSMI.c
 LEVEL_NOTE = ("Not proved, only tested on every run (independent oracle: plain RDKit reading + VF2 + Counter): the RDKit contracts that appear as "
               "explicit premises (canonical SMILES writer / parser round trip), CalcMolFormula string equality = equal counts and charge, "
               "FixAAM / NormalizeAAM, back-end morgan. WL colours are an input of the model. Model evaluation is bounded (nauty <= 45 reactant "
-              "atoms, ITS matcher <= 40 atoms); larger cases are checked by the oracle and the reaction-centre matcher. Known finding: >= 2 "
-              "product atoms without reactant partner are numbered in the order of their input numbers (C09_numbering_partnerless_refuted). "
+              "atoms, ITS matcher <= 40 atoms); larger cases are checked by the oracle and the reaction-centre matcher. Known findings: >= 2 "
+              "product atoms without reactant partner are numbered in the order of their input numbers (C09_numbering_partnerless_refuted); "
+              "back-end wl orders distinguishable atoms with tied WL colours by the input numbering (C09_numbering_independent_wl_refuted). "
               "Defects found and repaired: 8092e28 (product atoms without reactant partner dropped or merged), 7b06bf6, b262050.")
